@@ -340,6 +340,37 @@ func (w *World) LinkUp(id string) error {
 	return nil
 }
 
+// LinkUpStandby adds ANOTHER connection to the target's device while one is up
+// (a second channel of this node: the mastership controller then has several
+// CONTROLS relations to choose from).
+func (w *World) LinkUpStandby(id string) error {
+	_, label, err := w.Conns.LinkUp(topoapi.ID(id), w.Devices[id])
+	if err != nil {
+		return err
+	}
+	w.linkUp[id] = true
+	w.X.Logf("  standby link up %s (%s)", id, label)
+	return nil
+}
+
+// LinkDownMaster drops only the connection that is the target's master (if any);
+// other connections stay.
+func (w *World) LinkDownMaster(id string) {
+	c := w.Config(id)
+	if c == nil || c.Status.Mastership.Master == "" {
+		return
+	}
+	m := sb.ConnID(c.Status.Mastership.Master)
+	if _, ok := w.Conns.Get(context.Background(), m); !ok {
+		return
+	}
+	w.X.Logf("  master link down %s (%s)", id, w.Conns.Label(m))
+	w.Conns.LinkDown(m)
+	if len(w.Conns.Live(topoapi.ID(id))) == 0 {
+		w.linkUp[id] = false
+	}
+}
+
 // LinkDown tears down the target's connection(s).
 func (w *World) LinkDown(id string) {
 	for _, cid := range w.Conns.Live(topoapi.ID(id)) {
